@@ -154,7 +154,18 @@ func (t *assocTarget[K]) line(caseID int, o aop) callResult {
 				case 0:
 					t.m = class.MakeFromArray(as)
 				case 1:
-					t.m = class.MakeFromSequence(col.List[col.AssociationLike[K, int]](notation).MakeFromArray(as))
+					if o.via%6 == 4 {
+						// the source sequence is itself a Map: the new Map is a copy of it, not another name for it
+						src := class.MakeFromArray(as)
+						t.m = class.MakeFromSequence(src)
+						for _, a := range as {
+							src.SetValue(a.GetKey(), -66)
+						}
+						src.SetValue(kc.from(0), -67)
+						src.RemoveAll()
+					} else {
+						t.m = class.MakeFromSequence(col.List[col.AssociationLike[K, int]](notation).MakeFromArray(as))
+					}
 				default:
 					gm := map[K]int{}
 					if len(o.ps) == 0 && o.via%6 == 5 {
@@ -174,7 +185,17 @@ func (t *assocTarget[K]) line(caseID int, o aop) callResult {
 				case 0:
 					t.c = class.MakeFromArray(as)
 				default:
-					t.c = class.MakeFromSequence(col.List[col.AssociationLike[K, int]](notation).MakeFromArray(as))
+					if o.via%4 == 3 {
+						// the source sequence is itself a Catalog
+						src := class.MakeFromArray(as)
+						t.c = class.MakeFromSequence(src)
+						for _, a := range as {
+							src.SetValue(a.GetKey(), -66)
+						}
+						src.RemoveAll()
+					} else {
+						t.c = class.MakeFromSequence(col.List[col.AssociationLike[K, int]](notation).MakeFromArray(as))
+					}
 				}
 			}
 			for _, a := range as {
